@@ -208,12 +208,20 @@ class Solver(object):
             a, b = goal.args[0].args
             d = cn.lin(a).plus(cn.lin(b), -1)
             if cn.residual_is_zero(d):
+                # the residual, with non-zero sum denominators cleared and
+                # products expanded, is the zero polynomial in the opaque
+                # monomials: the solver is asked the (now trivial) query
+                s0 = z3.Solver()
+                s0.add(self._lin_expr(
+                    cn.clear_denominators(cn.expand_numerators(d)))
+                    != z3.RealVal(0))
                 self.stats.queries += 1
                 self.stats.linear_queries += 1
-                self.stats.unsat += 1
-                self.stats.linear_unsat += 1
-                self.stats.residual_zero += 1
-                return 'unsat'
+                if s0.check() == z3.unsat:
+                    self.stats.unsat += 1
+                    self.stats.linear_unsat += 1
+                    self.stats.residual_zero += 1
+                    return 'unsat'
         s = z3.Solver()
         s.set('timeout', 5000)
         for c in conds:
